@@ -292,10 +292,19 @@ def c13(chk):
             cmds += ["node %d key=%d idle=600000" % (50 + f, 150 + f), "connect %d 0" % (50 + f)]
         avail = ["0:%d:down" % j for j in range(1, k + 1) if not up0[j]]
         up = dict(up0)
+        # a High peer that is up but known under dead addresses only: its background dials keep failing (back-off running)
+        # while the peer itself dials in and leaves again between two checks - which changes nothing about the back-off
+        vis = [j for j in range(1, k + 1) if up0[j] and known_m[j - 1].split(":")[1] == "high" and known_m[j - 1].split(":")[2]
+               and all(int(a) >= 100 and int(a) < 200 for a in known_m[j - 1].split(":")[2].split(","))] if not forced and limit is None else []
+        visitor = rng.choice(vis) if vis and rng.random() < 0.7 else None
         for t in range(1, ticks):
-            cmds.append("sleep 490")
+            if visitor is not None and t in (1, 2, 4) and up[visitor]:
+                # (490 ms in all, plus the few ms the handshake takes: the observation points may drift later, never earlier)
+                cmds += ["sleep 150", "connect %d 0" % visitor, "sleep 100", "disconnect %d 0" % visitor, "sleep 240"]
+            else:
+                cmds.append("sleep 490")
             for j in range(1, k + 1):
-                if rng.random() < 0.12:
+                if rng.random() < 0.12 and j != visitor:
                     at = (t - 1) * P + 500
                     if up[j]:
                         cmds.append("drop %d" % j)
@@ -308,7 +317,7 @@ def c13(chk):
         scen.append("simnet " + " ; ".join(cmds))
         models.append("dialer own=0 step=%d maxb=%d maxout=%d P=%d ticks=%d | %s | %s"
                       % (step, maxb, maxout, P, ticks, ";".join(known_m), " ".join(avail)))
-        metas.append(dict(k=k, ticks=ticks, cap=cap_binds, maxout=maxout, known=known_m, limit=limit))
+        metas.append(dict(k=k, ticks=ticks, cap=cap_binds, maxout=maxout, known=known_m, limit=limit, visitor=visitor))
     # second family: the outstanding-connection cap against connections being established for OTHER reasons.
     # k identical High peers that are always down (so counts do not depend on which of them the hash order picks),
     # E_i explicit connects to a silent address issued 100 ms before tick i (pending at the tick, gone 300 ms later)
@@ -453,6 +462,8 @@ def c13(chk):
         chk.nontriv(sc)
         if meta.get("limit") is not None:
             chk.count("dialing-node-at-connection-limit:%d" % meta["limit"])
+        if meta.get("visitor") is not None:
+            chk.count("backing-off-peer-dials-in-between-checks")
         # model comparison: per tick, the set of (peer, address)
         def norm_port(p, port):
             port = int(port)
